@@ -683,6 +683,11 @@ def knot_removal(degree, knotvector, ctrlpts, u, **kwargs):
     """
     tol = kwargs.get('tol', 10e-4)  # Refer to Eq 5.30 for the meaning
     num = kwargs.get('num', 1)  # number of same knot removals
+    if 's' not in kwargs or 'span' not in kwargs:
+        # As in knot_insertion: the multiplicity is counted within a tolerance and the knot span is found by exact
+        # comparison, so a parameter which coincides with a knot within that tolerance is taken for the knot
+        if find_multiplicity(u, knotvector) > 0:
+            u = min(knotvector, key=lambda knot: abs(knot - u))
     s = kwargs.get('s', find_multiplicity(u, knotvector))  # multiplicity
     r = kwargs.get('span', find_span_linear(degree, knotvector, len(ctrlpts), u))  # knot span
 
